@@ -190,6 +190,19 @@ def build_cases(ctx, cfg, sweep):
                 cases.append((name + "/deny", fn(pkt.BCAST, cm, a, sip), control))
                 for nb in one_bit_neighbours(rng, a, 3):
                     cases.append((name + "/denynb", fn(cfg.mac, cm, nb, sip), control))
+    # 3b. a solicitation delivered on the solicited-node group of a handled address but asking for a *foreign* target that
+    #     merely shares its low 24 bits (the group is joined by every such address): must not be answered on the foreign
+    #     address's behalf
+    for a in s6:
+        for _ in range(2):
+            t = bytes([0x20, 0x01, 0x0d, 0xb8]) + bytes(rng.getrandbits(8) for _x in range(9)) + a[13:]
+            if t in (cfg.selfips or []):
+                continue
+            cip = clean_src(True)
+            dst = pkt.solicited_node(a)
+            body = b"\0\0\0\0" + t + b"\x01\x01" + cm
+            mk = lambda dm: pkt.eth(dm, cm, ET_IP6, pkt.ip6(cip, dst, P_ICMP6, pkt.icmp6(cip, dst, 135, 0, body), hlim=255))
+            cases.append(("ns6col/dst", mk(pkt.solicited_mac(a)), mk(cfg.mac)))
     # 4. link-layer encapsulations the responder does not implement (VLAN tags, MPLS, PPPoE) around answerable content
     for nm, fn in t4 + t6:
         v6 = nm.endswith("6") or nm.endswith("6t")
